@@ -257,6 +257,20 @@ def check(ck):
         gg = cfg_of(fi)
         st_ = [n for n in gg.live_nodes() if n.kind == "stmt" and isinstance(n.ast, ast.Assign) and dump(n.ast.targets[0]) == "self." + field]
         okk = len(st_) == 1 and prov.origin(gg, st_[0], st_[0].ast.value) == ("param", fi.params[1])
+        if not okk and len(st_) == 1 and meth == "raise_exception":
+            # a class given instead of an instance is instantiated (as `raise Cls` does): the argument itself is stored whenever it
+            # is an instance - the instantiation is confined to the true edge of isinstance(<argument>, type)
+            alts_ = prov.value_alts(prov.origin(gg, st_[0], st_[0].ast.value))
+            pa_ = ("param", fi.params[1])
+            inst_ = [a for a in alts_ if a != pa_]
+            dgg_ = dominators(gg)
+            if pa_ in alts_ and all(a[0] == "call" and a[1] == pa_ and not a[2] for a in inst_):
+                okk = True
+                for dn_ in gg.live_nodes():
+                    if dn_.kind == "stmt" and isinstance(dn_.ast, ast.Assign) and dump(dn_.ast.targets[0]) == fi.params[1] and \
+                            isinstance(dn_.ast.value, ast.Call) and dump(dn_.ast.value.func) == fi.params[1]:
+                        okk = okk and any(gg.nodes[d].kind == "branch" and gg.nodes[d].polarity and
+                                          ("isinstance(%s, type)" % fi.params[1]) in dump(gg.nodes[d].test) for d in dgg_[dn_.id])
         ck.require(okk, "C09.3", "%s: self.%s = %s" % (q.fn(fi), field, param), "stores the very object",
                    "EventData.%s does not store its argument itself in %s" % (meth, field), q.loc(fi, fi.node))
     for meth, field in (("data", EF["data"]), ("exception", EF["exception"])):
